@@ -45,6 +45,9 @@ def oracle_row(row):
         return None
     if g.startswith("ROT_"):
         G = qc.rot_nd(g[-1].lower(), meta["n"], meta["d"])
+    elif g == "CUSTOM":
+        # a gate outside the frozen table: its operator is the class's own published matrix
+        G = np.array([[complex(a, b) for a, b in r] for r in meta["matrix"]])
     else:
         G = qc.GATES[g]
     if pl == "PCE":
@@ -62,6 +65,8 @@ def oracle_row(row):
 def row_key(row):
     m = row["meta"]
     g = m["gate"].lower()
+    if g == "custom":
+        g = "derived-" + m["mnemonic"]
     return f"C07:decomp:{g}:{row['place']}"
 
 
@@ -153,7 +158,17 @@ def published_case(cls, mn, n, d, spec):
     return bad
 
 
-def check_published(ctx, spec):
+def check_published(ctx, spec, data=None):
+    derived = {"vanilla." + d["cls"]: d for d in (data or {}).get("derived", [])}
+    derived_listed = []
+    try:
+        return _check_published(ctx, spec, derived, derived_listed)
+    finally:
+        if derived_listed:
+            ctx.coverage["specification_derived_from_implementation_matrix"] = derived_listed
+
+
+def _check_published(ctx, spec, derived, derived_listed):
     from netqasm.lang.instr import core, nv, vanilla
     from netqasm.lang.ir import GenericInstr
     from netqasm.util import quantum_gates as qg
@@ -179,8 +194,16 @@ def check_published(ctx, spec):
                 ctx.gen_obligation(f"published matrix of {cname} evaluates", False, repr(e))
                 break
             if res is None:
-                ctx.gen_obligation(f"instruction class {cname} (mnemonic {mn}) has a known operator definition", False,
-                                   "quantum instruction class not covered by the specification table")
+                # unknown mnemonic: the frozen table has no operator for it.  If the translator derived its
+                # specification from the class's own to_matrix() (exact K32 form found), the decomposition rows
+                # are proved against that matrix; the comparison "to_matrix() vs mnemonic semantics" cannot apply.
+                d = derived.get(cname)
+                if d is not None:
+                    derived_listed.append(dict(cls=cname, mnemonic=mn, accepted_by_nv_transpiler=bool(d.get("accepted"))))
+                else:
+                    ctx.gen_obligation(f"instruction class {cname} (mnemonic {mn}) has a known operator definition", False,
+                                       "quantum instruction class neither in the specification table nor with an exact "
+                                       "K32 form of its published matrix")
                 break
             for what, diff in res:
                 n_cmp += 1
@@ -295,6 +318,15 @@ def run(ctx):
     ctx.gen_obligation("Gen_NvDecomp.v type-checks", r.ok, r.err[-300:])
     data = json.load(open(jpath))
     rows = data["rows"]
+    for prob in data.get("derived_problems", []):
+        ctx.gen_obligation("a vanilla gate outside the frozen table has a usable published matrix", False, prob)
+    drows = [r["name"] for r in rows if r["meta"]["gate"] == "CUSTOM"]
+    if drows:
+        ctx.coverage["rows_with_specification_derived_from_to_matrix"] = drows
+        ctx.trusted.append("rows marked [spec from to_matrix]: the gate's mnemonic is not in the frozen specification table; "
+                           "its operator is the exact K32 form (searched among 0, +-w^a/2^m, (w^a +- w^b)/2^m, verified to 1e-12) of "
+                           "the class's OWN published to_matrix() - this shows decomposition = published matrix, not that the "
+                           "published matrix is what the mnemonic should mean")
     # oracle on every row (independent of Coq)
     nbad = 0
     place_stats, gate_stats = {}, {}
@@ -328,7 +360,7 @@ def run(ctx):
         qc.complex_props(ctx, "C07_complex")
     else:
         search(ctx, data, rows)
-    check_published(ctx, spec)
+    check_published(ctx, spec, data)
     ctx.finish()
 
 
